@@ -216,7 +216,7 @@ func (ex *Exec) lockRel(rel *Rel) {
 }
 
 func (ex *Exec) runInsert(ins *Insert, outer *Env) *Rel {
-	t := ex.db.table(ins.Table.Schema, ins.Table.Name)
+	t := ex.db.table(ex.sch(ins.Table.Schema), ins.Table.Name)
 	alias := ins.Table.Alias
 	if alias == "" {
 		alias = t.Name
@@ -283,7 +283,8 @@ func (ex *Exec) runInsert(ins *Insert, outer *Env) *Rel {
 		for ci, c := range t.Cols {
 			if !given[ci] && c.Default != nil {
 				env := &Env{ex: ex}
-				vals[ci] = ex.coerceToColumn(t, ci, env.Eval(c.Default))
+				ci, c := ci, c
+				ex.withSchema(t.Schema, func() { vals[ci] = ex.coerceToColumn(t, ci, env.Eval(c.Default)) })
 			}
 		}
 		vals = ex.fireRowTriggers(t, "before", "insert", vals, nil)
@@ -477,7 +478,7 @@ func (ex *Exec) appendReturning(out *Rel, ret []SelItem, t *Table, alias string,
 }
 
 func (ex *Exec) runUpdate(u *Update, outer *Env) *Rel {
-	t := ex.db.table(u.Table.Schema, u.Table.Name)
+	t := ex.db.table(ex.sch(u.Table.Schema), u.Table.Name)
 	alias := u.Table.Alias
 	if alias == "" {
 		alias = t.Name
@@ -566,7 +567,7 @@ func (ex *Exec) runUpdate(u *Update, outer *Env) *Rel {
 }
 
 func (ex *Exec) runDelete(d *Delete, outer *Env) *Rel {
-	t := ex.db.table(d.Table.Schema, d.Table.Name)
+	t := ex.db.table(ex.sch(d.Table.Schema), d.Table.Name)
 	alias := d.Table.Alias
 	if alias == "" {
 		alias = t.Name
